@@ -1,0 +1,5 @@
+//go:build !verif
+
+package ch
+
+func verifGate(string) {}
